@@ -154,7 +154,7 @@ func minimiseAndReport(bt *builtTree, prop, tier string, seed uint64, f *found) 
 	}
 	// 2. shrink
 	t0 := time.Now()
-	budgetN, budgetT := envInt("VERIF_MIN_CANDIDATES", 600), 90*time.Second
+	budgetN, budgetT := envInt("VERIF_MIN_CANDIDATES", 2000), 90*time.Second
 	tried, accepted := 0, 0
 	par := envInt("VERIF_WORKERS", 16)
 	startN, _ := tapeSize(cur)
